@@ -89,7 +89,8 @@ Lemma base_key_length_bounds alg klen :
   base_key_length alg klen <= Z.max klen 0 /\ (0 < klen - base_key_length alg klen -> base_key_length alg klen + (klen - base_key_length alg klen) = klen).
 Proof.
   unfold base_key_length. split; [|lia].
-  destruct (alg =? SRTP_NULL_CIPHER_c); [lia|]. destruct (is_icm_alg alg); [unfold SRTP_SALT_LEN_c; lia|lia].
+  destruct (alg =? SRTP_NULL_CIPHER_c); [lia|]. destruct (is_icm_alg alg); [unfold SRTP_SALT_LEN_c; lia|].
+  destruct (is_gcm_alg alg); [unfold SRTP_AEAD_SALT_LEN_c; lia|lia].
 Qed.
 
 Theorem derive_keys_no_overflow p mkey mki st d :
